@@ -1,0 +1,39 @@
+//! Verification hooks, only compiled with `--cfg fuellabs_sway_verif`.
+//!
+//! `point(label, server)` is called immediately before an access to the state shared between the
+//! request/notification handlers and the compilation thread (`is_compiling`,
+//! `retrigger_compilation`, the `cb_tx`/`cb_rx` channel, `finished_compilation` and
+//! `last_compilation_state`). It does nothing unless a harness has installed a callback, so a build
+//! with the cfg enabled behaves exactly like one without it.
+
+use std::sync::{Arc, RwLock};
+
+/// Called with the label of the step that is about to happen and an opaque id of the
+/// [`crate::server_state::ServerState`] it belongs to (see `ServerState::verif_id`).
+pub type Callback = Arc<dyn Fn(&'static str, usize) + Send + Sync>;
+
+static CALLBACK: RwLock<Option<Callback>> = RwLock::new(None);
+
+/// Install (or remove) the process-wide callback.
+pub fn set_callback(callback: Option<Callback>) {
+    *CALLBACK.write().unwrap() = callback;
+}
+
+#[inline]
+pub fn point(label: &'static str, server: usize) {
+    let callback = CALLBACK.read().unwrap().clone();
+    if let Some(callback) = callback {
+        callback(label, server);
+    }
+}
+
+/// The values of the shared scheduling state of one server, for harness-side oracles.
+#[derive(Debug, Clone, PartialEq, Eq)]
+pub struct Snapshot {
+    pub is_compiling: bool,
+    pub retrigger_compilation: bool,
+    /// Number of messages queued in the bounded(1) compilation channel.
+    pub queued: usize,
+    /// `Uninitialized`, `Success` or `Failed`.
+    pub last_compilation_state: &'static str,
+}
